@@ -232,14 +232,6 @@ Definition model_cli (c : case) (a : cli_args) : option view :=
 
 (** ** the specification side (K_P) *)
 
-Fixpoint ts_increasing (last : option Z) (s : list item) : bool :=
-  match s with
-  | [] => true
-  | ISync :: s' => ts_increasing last s'
-  | IUpd n :: s' =>
-      match last with Some l => l <? n_ts n | None => true end && ts_increasing (Some (n_ts n)) s'
-  end.
-
 Definition decodable (s : list item) : bool :=
   forallb (fun it => match it with
                      | ISync => true
